@@ -315,3 +315,96 @@ pub fn result_json(r: &CommandResult) -> Value {
         CommandResult::Exit(v) => json!({"exit": v}),
     }
 }
+
+// ---------------------------------------------------------------------------------------------
+// A persistent session: real commands, variables and state kept between calls.
+// ---------------------------------------------------------------------------------------------
+
+#[derive(Clone, Debug, PartialEq, Eq, Hash)]
+pub enum Out {
+    /// Continue with this output (None = no output / undefined)
+    Val(Option<String>),
+    Err(String),
+    Crash(String),
+    Panic(String),
+    Other(String),
+}
+
+impl Out {
+    pub fn kind(&self) -> &'static str {
+        match self {
+            Out::Val(None) => "none",
+            Out::Val(Some(_)) => "value",
+            Out::Err(_) => "error",
+            Out::Crash(_) => "crash",
+            Out::Panic(_) => "panic",
+            Out::Other(_) => "other",
+        }
+    }
+    pub fn is_err(&self) -> bool {
+        matches!(self, Out::Err(_))
+    }
+}
+
+pub struct Session {
+    pub commands: duckscript::types::command::Commands,
+    pub variables: HashMap<String, String>,
+    pub state: HashMap<String, StateValue>,
+    pub out: Buf,
+}
+
+impl Session {
+    pub fn new() -> Session {
+        let c = sdk_context();
+        Session {
+            commands: c.commands,
+            variables: HashMap::new(),
+            state: HashMap::new(),
+            out: Buf::default(),
+        }
+    }
+
+    /// Runs one command with already-bound arguments (they must not contain `$`, `%` or a
+    /// backslash followed by one of them: binding would rewrite those).
+    pub fn call(&mut self, cmd: &str, args: &[&str]) -> Out {
+        self.call_out(cmd, args, None)
+    }
+
+    pub fn call_out(&mut self, cmd: &str, args: &[&str], output: Option<&str>) -> Out {
+        use duckscript::types::instruction::{InstructionMetaInfo, ScriptInstruction};
+        let mut si = ScriptInstruction::new();
+        si.command = Some(cmd.into());
+        si.arguments = if args.is_empty() { None } else { Some(args.iter().map(|s| s.to_string()).collect()) };
+        si.output = output.map(|s| s.to_string());
+        let ins = Instruction {
+            meta_info: InstructionMetaInfo::new(),
+            instruction_type: InstructionType::Script(si),
+        };
+        let mut env = Env::new(Some(Box::new(self.out.clone())), Some(Box::new(Buf::default())), None);
+        let (commands, variables, state) = (&mut self.commands, &mut self.variables, &mut self.state);
+        let r = crate::engine::guarded(|| {
+            duckscript::runner::run_instruction(commands, variables, state, &vec![], ins, 0, &mut env)
+        });
+        match r {
+            Err(p) => Out::Panic(p),
+            Ok((CommandResult::Continue(v), _)) => Out::Val(v),
+            Ok((CommandResult::Error(e), _)) => Out::Err(e),
+            Ok((CommandResult::Crash(e), _)) => Out::Crash(e),
+            Ok((o, _)) => Out::Other(result_json(&o).to_string()),
+        }
+    }
+
+    pub fn handles(&self) -> BTreeMap<String, SV> {
+        match self.state.get("handles") {
+            Some(StateValue::SubState(m)) => m.iter().map(|(k, v)| (k.clone(), abstract_state_value(v))).collect(),
+            _ => BTreeMap::new(),
+        }
+    }
+
+    pub fn handle(&self, key: &str) -> Option<SV> {
+        match self.state.get("handles") {
+            Some(StateValue::SubState(m)) => m.get(key).map(abstract_state_value),
+            _ => None,
+        }
+    }
+}
